@@ -336,6 +336,72 @@ def check_product_mod4(r, repo, rule="R17.6", ylens=(1, 2, 4)):
              f"the second result is {y_!r}, not `v - round(v)` for a rounded v: it is not confined to [-1/2, 1/2]", loc(REL, g))
 
 
+def _dtype_table(node, bits):
+    """value selected by `{numpy.float16: a, numpy.float32: b, numpy.float64: c}[<dtype>]` for one format, else None"""
+    if isinstance(node, ast.Subscript) and isinstance(node.value, ast.Dict):
+        for k, v in zip(node.value.keys, node.value.values):
+            if k is not None and (dotted(k) or "").split(".")[-1] == f"float{bits}":
+                val = ev(v, {})
+                return val if isinstance(val, int) and not isinstance(val, bool) else None
+    return None
+
+
+def _single_assignment(func, name):
+    hits = [st for st in ast.walk(func) if isinstance(st, ast.Assign) and len(st.targets) == 1 and isinstance(st.targets[0], ast.Name) and st.targets[0].id == name]
+    return hits[0].value if len(hits) == 1 else None
+
+
+def check_partial_products_exact(r, repo, c1_for, rule="R17.7"):
+    """Cross-module agreement behind the exact-arithmetic reading of R17.6: the words of the triple-word split of x and the
+    words of the multiword 2/pi must be short enough for every partial product x_i * w_j to be a float.  A Veltkamp split with
+    C = 2^s + 1 leaves a head word of p - s bits and a tail of at most s bits (which the second split only shortens); the
+    multiword 2/pi is cut into words of `prec` bits by utils.mpf2multiword (R13.5).  So p - s + prec <= p and s + prec <= p."""
+    UT = "utils.py"
+    g = repo.func(REL, "argument_reduction_trigonometric_impl")
+    f = repo.func(UT, "get_two_over_pi_multiword")
+    params = [a.arg for a in f.args.args]
+    # the word length handed to mpf2multiword inside the getter
+    calls = [c for c in ast.walk(f) if isinstance(c, ast.Call) and (call_name(c) or "").split(".")[-1] == "mpf2multiword"]
+    if len(calls) != 1:
+        raise AnalysisError("utils.get_two_over_pi_multiword: expected one call of mpf2multiword")
+    parg = next((k.value for k in calls[0].keywords if k.arg == "p"), calls[0].args[2] if len(calls[0].args) > 2 else None)
+    if not (isinstance(parg, ast.Name) and parg.id in params):
+        raise AnalysisError("utils.get_two_over_pi_multiword: the word length passed to mpf2multiword is not the function's own parameter")
+    pname, ppos = parg.id, params.index(parg.id)
+    default = _single_assignment(f, pname)
+    # the call site in the reduction: does it pass a word length of its own?
+    sites = [c for c in ast.walk(g) if isinstance(c, ast.Call) and (call_name(c) or "").split(".")[-1] == "get_two_over_pi_multiword"]
+    if len(sites) != 1:
+        raise AnalysisError("argument_reduction_trigonometric_impl: expected one call of get_two_over_pi_multiword")
+    site = sites[0]
+    passed = next((k.value for k in site.keywords if k.arg == pname), site.args[ppos] if len(site.args) > ppos else None)
+    if passed is not None and isinstance(passed, ast.Constant) and passed.value is None:
+        passed = None
+    for b in BITS:
+        if passed is None:
+            prec = _dtype_table(default, b) if default is not None else None
+            src = "the getter's default table"
+        else:
+            node = passed
+            if isinstance(node, ast.Name):
+                node = _single_assignment(g, node.id)
+            prec = (node.value if isinstance(node, ast.Constant) and isinstance(node.value, int) else _dtype_table(node, b)) if node is not None else None
+            src = "the reduction's own argument"
+        if prec is None:
+            raise AnalysisError(f"word length of the multiword 2/pi for float{b} is not a per-format table entry ({src})")
+        c1 = c1_for(b)
+        sbits = (c1 - 1).bit_length() - 1 if c1 == int(c1) and c1 > 1 else None
+        if sbits is None or 2 ** sbits + 1 != c1:
+            raise AnalysisError(f"tripleword splitter constant for float{b} is {c1!r}, not of the form 2^s + 1")
+        pp = PREC[b]
+        head, tail = pp - sbits, sbits
+        ok = head + prec <= pp and tail + prec <= pp
+        r.ob(rule, f"{REL}::argument_reduction_trigonometric_impl float{b}: partial products of the split of x and the multiword 2/pi are exact", ok,
+             f"float{b}: the first split constant 2^{sbits} + 1 leaves words of {head} and <= {tail} bits; words of 2/pi have {prec} bits ({src}); "
+             f"a product needs up to {max(head, tail) + prec} > {pp} bits and is rounded, its error is lost to the reduction", loc(REL, g),
+             sample=dict(rule=rule, bits=b, split_at=sbits, head_bits=head, tail_bits=tail, two_over_pi_word_bits=prec, source=src))
+
+
 def run(repo, tier):
     r = Report("C17", tier, repo, level="other", design_ref="§3/C17")
     r.explanation = (
@@ -351,6 +417,7 @@ def run(repo, tier):
     r.rule("R17.4", "trigonometric reduction: the no-reduction shortcut (r = x, t = 0) is guarded by |x| < (head word of pi/2) / 2, symmetric in the sign of x", floor=2)
     r.rule("R17.5", "exponential reduction, derived per format by partitioning the domain by k (exact rational bounds from monotone rounding, Sterbenz, one rounding of k*ln2lo): |r + c| <= 0.55 ln 2 and |k ln2 + (r + c) - x| <= ulp(x) for every admissible x", floor=3)
     r.rule("R17.6", "trigonometric reduction, multiword product modulo 4 (exact-arithmetic identity on symbolic words, 2Sum by contract, trunc/round as integer unknowns): k + r + rest == sum of all partial products minus a multiple of 4; k is reduced modulo 4; r = total - round(total)", floor=9)
+    r.rule("R17.7", "trigonometric reduction, premise of R17.6: per format, (bits of a word of the triple-word split of x) + (bits of a word of the multiword 2/pi) <= p, so every partial product is exact; the word lengths are read from the splitter constants and from the table that reaches mpf2multiword", floor=3)
     r.rule("R17.2", "reduction formula (dataflow): k = floor(x*INV + 1/2), r = x - k*HI, c = -k*LO with one constant in each place", floor=3)
 
     from sa.kernels import Extractor, IN, CONST, normal as knf, show, lift, is_term, Unsupported as KUnsupported
@@ -440,4 +507,11 @@ def run(repo, tier):
             check_exponent_bounds(r, b, round_to(b, value_for(HI, b)), round_to(b, value_for(LO, b)), round_to(b, value_for(INV, b)), loc(REL, g))
     check_trig_recombination(r, repo)
     check_product_mod4(r, repo)
+    try:
+        c12 = ex.call(REL, "get_tripleword_splitter_constants", [("opaque", "ctx"), CONST("largest")], {})
+    except KUnsupported as e:
+        raise AnalysisError(f"get_tripleword_splitter_constants: {e}")
+    if is_term(c12) or len(c12) != 2:
+        raise AnalysisError("get_tripleword_splitter_constants: expected (C1, C2)")
+    check_partial_products_exact(r, repo, lambda b: int(value_for(lift(c12[0]), b)))
     return r
